@@ -259,14 +259,34 @@ def run_shard(shard):
     res = {"states": 0, "transitions": 0, "executions": 0, "violations": [], "samples": [], "counters": {}}
     sig = {}
 
+    hangs = [0]
+
+    class TooManyHangs(Exception):
+        pass
+
     def absorb(fails, rep):
         for clause, disc, whatmsg in fails:
+            if "Hang" in whatmsg or "did not return" in whatmsg or "no quiescence" in whatmsg:
+                hangs[0] += 1
             key = (clause, disc)
             if key in sig:
                 sig[key]["count"] += 1
             else:
                 sig[key] = {"clause": clause, "disc": disc, "count": 1, "what": whatmsg, "replay": rep}
+        if hangs[0] >= 2:
+            raise TooManyHangs()  # every further execution would burn the CPU watchdog again: the finding is recorded
 
+    try:
+        _run(shard, tier, seed, what, res, absorb)
+    except TooManyHangs:
+        res["counters"]["aborted_after_hangs"] = 1
+    res["states"] += res["executions"]
+    res["transitions"] += res["executions"]
+    res["violations"] = list(sig.values())
+    return res
+
+
+def _run(shard, tier, seed, what, res, absorb):
     if what == "sweep":
         lo, hi = shard[3], shard[4]
         for n in range(lo, hi + 1):
@@ -321,10 +341,6 @@ def run_shard(shard):
         absorb(f, dict(kind="d3", n=n, seed=seed, mode="whole"))
         res["executions"] += 2
         res["counters"]["large"] = 1
-    res["states"] += res["executions"]
-    res["transitions"] += res["executions"]
-    res["violations"] = list(sig.values())
-    return res
 
 
 def finish(tier, seed, m):
